@@ -61,6 +61,7 @@ func outByte(w io.Writer, i int) byte        { return 0 }
 func sameBase(a, b []byte) bool              { return false }
 func sameSlice(a, b []byte) bool             { return false }
 func notPartOf(b []byte, x interface{}) bool { return true }
+func freshObj(x interface{}) bool            { return true }
 
 var _ = ws.StateServerSide
 
@@ -288,20 +289,12 @@ func streamOK(r io.Reader) bool {
 
 // specTail is what the reader appends to the peer's bytes (RFC 7692 §7.2.2: 00 00 ff ff, then an
 // empty final stored block so that the inflater sees the end of the stream).
-func specTailByte(i int) byte {
-	switch i {
-	case 0, 1, 5, 6:
-		return 0
-	case 2, 3, 7, 8:
-		return 0xff
-	case 4:
-		return 1
-	}
-	return 0
-}
+var specTail = [9]byte{0x00, 0x00, 0xff, 0xff, 0x01, 0x00, 0x00, 0xff, 0xff}
+
+func specTailByte(i int) byte { return specTail[i] }
 
 func invSuffixed(r *suffixedReader) bool {
-	return 0 <= r.pos && r.pos <= 9 && forall(0, 9, func(k int) bool { return r.suffix[k] == specTailByte(k) })
+	return 0 <= r.pos && r.pos <= 9 && r.suffix == specTail
 }
 
 //@ func suffixedReader.reset
@@ -431,7 +424,8 @@ func cbufByte(c *cbuf, j int) byte {
 //@ func Writer.Reset
 //@   props C12 C18
 //@   requires [ctor] w.ctor != nil
-//@   ensures [asnew] w.err == nil && w.cbuf.n == 0 && w.cbuf.err == nil && w.cbuf.dst == dest && w.cbuf.buf == [4]byte{}
+//@   ensures [asnew] w.err == nil && w.cbuf.n == 0 && w.cbuf.err == nil && w.cbuf.dst == dest && w.cbuf.buf == [4]byte{} && w.c != nil
+//@   assigns w.err, w.cbuf, w.c, stream(w.c)
 
 //@ func Writer.Write
 //@   props C12 C18
@@ -464,10 +458,21 @@ func cbufByte(c *cbuf, j int) byte {
 //@   ensures [cut]  !isByteReader(r.r) ==> !isByteReader(result) && r.rx.Reader == io.Reader(r)
 //@   assigns r.rx.Reader
 
+//@ func NewReader
+//@   props C12 C18
+//@   requires [ctor] ctor != nil
+//@   ensures [new] result != nil && freshObj(result) && invSuffixed(&result.sr) && result.sr.r == r && result.src == r && result.err == nil && result.d != nil
+
+//@ func NewWriter
+//@   props C12 C18
+//@   requires [ctor] ctor != nil
+//@   ensures [new] result != nil && freshObj(result) && result.err == nil && result.cbuf.n == 0 && result.cbuf.err == nil && result.cbuf.dst == w && result.cbuf.buf == [4]byte{} && result.c != nil
+
 //@ func Reader.Reset
 //@   props C12 C18
 //@   requires [ctor] r.ctor != nil
-//@   ensures [asnew] r.err == nil && r.sr.r == src && r.sr.pos == 0 && r.sr.suffix == old(r.sr.suffix) && r.src == src
+//@   ensures [asnew] r.err == nil && r.sr.r == src && r.sr.pos == 0 && r.sr.suffix == old(r.sr.suffix) && r.src == src && r.d != nil
+//@   assigns r.err, r.src, (&r.sr).r, (&r.sr).pos, (&r.sr).rx, r.d, stream(r.d)
 
 //@ func Reader.Read
 //@   props C12 C18
